@@ -65,6 +65,15 @@ func configsA(quick bool) []*CfgA {
 		c.Menu2 = []string{"A"}
 		c.Horizon = 125
 	})
+	// feed-list change late in a cycle: A's interval shrinks from 120 to 60 at the update block of tick 108, after the
+	// daemon has polled many times since its last submission (whatever it remembers about that submission is in play)
+	add("revote-shrink-late", func(c *CfgA) {
+		c.Vote = []sigSpec{{"A", 1}}
+		c.Revote, c.RevoteTick = []sigSpec{{"A", 2}}, 90
+		c.UpdateEvery = 20
+		c.Menu = []string{"A", "Ahi"}
+		c.Horizon = 175
+	})
 	// feed-list change: B leaves the list (a submission carrying B may be in flight)
 	add("revote-leave", func(c *CfgA) {
 		c.Vote = []sigSpec{{"A", 2}, {"B", 2}}
@@ -168,7 +177,12 @@ func scenariosB(quick bool) ([]ScB, []gosched.Bounds) {
 	conc := ScB{Name: "two-polls-back-to-back(S1,S2)", Clients: 1, Polls: []string{"S1", "S2"}, MaxTry: 1, Timeout: 2 * time.Second}
 	same := ScB{Name: "two-polls-1s-apart(S1,S1)", Clients: 1, Polls: []string{"S1", "S1"}, Sleep: true, MaxTry: 1, Timeout: 2 * time.Second}
 	sameB2B := ScB{Name: "two-polls-back-to-back(S1,S1)", Clients: 1, Polls: []string{"S1", "S1"}, MaxTry: 1, Timeout: 2 * time.Second}
+	// shipped submitter configuration (broadcast timeout 1m, max-try 5, tx lookups every second): a tx that is
+	// never found keeps its submission in flight for minutes while the signaller goes on polling
+	slow := ScB{Name: "shipped-timeouts-polls-at-0s,60s,95s,130s(S1)", Clients: 1, Polls: []string{"S1", "S1", "S1", "S1"},
+		Gaps: []time.Duration{60 * time.Second, 35 * time.Second, 35 * time.Second}, MaxTry: 5, Timeout: time.Minute}
 	if quick {
+		add(slow, 1, 1)
 		add(one2, 2, 2)
 		add(two, 1, 1)
 		add(two, 0, 2)
@@ -179,6 +193,8 @@ func scenariosB(quick bool) ([]ScB, []gosched.Bounds) {
 		add(apart, 1, 2)
 		return scs, bs
 	}
+	add(slow, 2, 1)
+	add(slow, 1, 2)
 	add(one2, 3, 3)
 	add(conc, 1, 2)
 	add(conc, 2, 0)
@@ -203,7 +219,7 @@ var requiredA = []string{
 
 var requiredB = []string{
 	"b:all-succeeded", "b:some-submission-failed-for-good", "b:two-submissions-concurrently", "b:poll-skipped-in-flight-signal", "b:retried",
-	"b:tx-never-found", "b:tx-out-of-gas", "b:broadcast-out-of-gas", "b:broadcast-error", "b:sim-error", "b:account-error", "b:key-error",
+	"b:tx-never-found", "b:poll-skipped-signal-in-flight-for-over-90s", "b:tx-out-of-gas", "b:broadcast-out-of-gas", "b:broadcast-error", "b:sim-error", "b:account-error", "b:key-error",
 }
 
 // workersFor: number of explorer workers (overridable through the named environment variable).
@@ -371,7 +387,7 @@ func init() {
 			scs, bounds := scenariosB(quick)
 			var bn []string
 			for i, s := range scs {
-				bn = append(bn, fmt.Sprintf("%s{clients %d, polls %v, sleep %v, maxTry %d, timeout %v; preemptions<=%d, faults<=%d}", s.Name, s.Clients, s.Polls, s.Sleep, s.MaxTry, s.Timeout, bounds[i].Preemptions, bounds[i].Faults))
+				bn = append(bn, fmt.Sprintf("%s{clients %d, polls %v, sleep %v gaps %v, maxTry %d, timeout %v; preemptions<=%d, faults<=%d}", s.Name, s.Clients, s.Polls, s.Sleep, s.Gaps, s.MaxTry, s.Timeout, bounds[i].Preemptions, bounds[i].Faults))
 			}
 			r.Bound = "(a) per configuration, every sequence over the horizon (1 tick = 1 s of the daemon clock, polls every second as shipped, start 50 % / offset 30 %) of price-service answers (one menu entry per requested signal per poll: " +
 				"A base price, Ahi exactly the deviation above, Ahi-1, Adn at least the deviation below Ahi, Adn+1, UNAV, UNSUP, MISS absent) x delivery latency per emitted submission; blocks every `period` seconds with header time = execution time - lag; configurations: " +
